@@ -1,6 +1,6 @@
 (* Model/TablesShow.v — text protocol of the TABLES cluster (C04 C05 C06):
    parsing of history lines and canonical printing of states. Executable only. *)
-From PV Require Import Base.Text Model.Tables.
+From PV Require Import Base.Text Base.Slice Model.Tables Model.TablesGlue.
 Open Scope string_scope.
 Open Scope N_scope.
 
@@ -35,7 +35,7 @@ Definition ip_of_tok (s : string) : option ip :=
   | None => None
   end.
 
-Definition commas (s : string) : list string := split ","%char s.
+Definition commas (s : string) : list string := Text.split ","%char s.
 
 (* ---------- order on addresses (netip.Addr.Compare: bit length, then value) ---------- *)
 Definition ip_leb (x y : ip) : bool :=
@@ -84,7 +84,14 @@ Definition kind_of_tok (s : string) : option nkind :=
   else if String.eqb s "4" then Some KNbns else None.
 
 (* parsed op; Purge's order is supplied by the interpreter (sorted keys of the current state) *)
-Inductive pop : Set := POp (o : op) | PPurge (now : Z).
+Inductive pop : Set := POp (o : op) | PPurge (now : Z) | PBytes (b : bytes) (now : Z).
+
+(* raw frames are turned into Rx ops as soon as the configuration is known *)
+Definition debyte (c : cfg) (p : pop) : pop :=
+  match p with
+  | PBytes b now => POp (Rx (summary_of (pcfg_of c) (of_bytes b)) now)
+  | _ => p
+  end.
 
 Definition op_of_tok (s : string) : option pop :=
   match commas s with
@@ -114,6 +121,11 @@ Definition op_of_tok (s : string) : option pop :=
       | _, _, _ => None
       end
   | ["D"] => Some (POp Drain)
+  | ["B"; hex; now] =>     (* a received frame as RAW BYTES: the summary is computed by Model/TablesGlue.v *)
+      match bytes_of_tok hex, Z_of_dec now with
+      | Some b, Some now => Some (PBytes b now)
+      | _, _ => None
+      end
   | _ => None
   end.
 
@@ -127,7 +139,11 @@ Fixpoint ops_of_toks (l : list string) : option (list pop) :=
   end.
 
 Definition resolve (s : state) (p : pop) : op :=
-  match p with POp o => o | PPurge now => Purge now (sorted_keys s) end.
+  match p with
+  | POp o => o
+  | PPurge now => Purge now (sorted_keys s)
+  | PBytes _ _ => Drain      (* not reached: the dispatch applies [debyte] first *)
+  end.
 
 (* ---------- printing ---------- *)
 Definition b01 (b : bool) : string := if b then "1" else "0".
